@@ -248,13 +248,44 @@ def gen_row(ch, r, rev):
     return " ".join(parts)
 
 
+RW_SUB = ["when x", "when y", "unless z"]
+RW_SUBLINES = ["apply p", "apply q", "drop r", "pass s"]
+
+
 def gen_rewrite_body(ch):
+    """body of a rewrite block: plain lines and (sometimes) one level of nested sub-blocks"""
     t = odict()
     for _ in range(1 + ch.draw(4, "rwn")):
+        if ch.draw(4, "rwsub") == 0:
+            head = RW_SUB[ch.draw(len(RW_SUB), "rwsubhead")]
+            if head not in t:
+                t[head] = gen_rewrite_sub(ch)
+            continue
         line = RW_LINES[ch.draw(len(RW_LINES), "rwline")]
         if line not in t:
             t[line] = odict()
     return t
+
+
+def gen_rewrite_sub(ch):
+    sub = odict()
+    for _ in range(1 + ch.draw(3, "rwsubn")):
+        sub[RW_SUBLINES[ch.draw(len(RW_SUBLINES), "rwsubline")]] = odict()
+    return sub
+
+
+def tweak_rewrite_nested(ch, body):
+    """change only what is nested inside a sub-block of a rewrite body (first level untouched); None if there is none"""
+    heads = [k for k, v in body.items() if v]
+    if not heads:
+        return None
+    out = copy.deepcopy(body)
+    h = heads[ch.draw(len(heads), "rwtweak")]
+    new = gen_rewrite_sub(ch)
+    if list(new) == list(out[h]):
+        new["apply tweak"] = odict()
+    out[h] = new
+    return out
 
 
 def gen_tree(ch, rb, rules=None, depth=0, density=2):
@@ -308,7 +339,12 @@ def mutate_tree(ch, rb, tree, rules=None, depth=0):
         if r.twin is not None and find_line(out, rules, rb.globals, r.twin, m[1], rb.rev) is not None:
             continue
         if r.rewrite:
-            out[row] = gen_rewrite_body(ch) if act == 2 else copy.deepcopy(sub)
+            if act == 2:
+                out[row] = gen_rewrite_body(ch)
+            elif act == 3:
+                out[row] = tweak_rewrite_nested(ch, sub) or copy.deepcopy(sub)
+            else:
+                out[row] = copy.deepcopy(sub)
         elif r.block:
             out[row] = mutate_tree(ch, rb, sub, kids(rules, row, r, rb.rev), depth + 1) if act in (2, 3, 4) else copy.deepcopy(sub)
         else:
@@ -504,6 +540,21 @@ class CliDevice:
                 self.candidate = None
                 self.in_config = False
                 return None
+        # inside the body of a rewrite block nesting follows the levels (a body is free text as far as the rulebook goes)
+        rw_root = next((i for i, c in enumerate(self.ctx) if c[3]), None)
+        if rw_root is not None and level > rw_root:
+            if self.rb.exit and row == self.rb.exit:
+                if level >= rw_root + 2:
+                    self.ctx = self.ctx[:level]          # a nested sub-block is closed
+                    return None
+                self.ctx = self.ctx[:rw_root]            # the rewrite block itself is closed
+                return None
+            self.ctx = self.ctx[:max(level, rw_root + 1)]
+            parent = self.ctx[-1][2]
+            if row not in parent:
+                parent[row] = odict()
+            self.ctx.append((row, [], parent[row], True))
+            return None
         # block exit handling: the device follows its OWN nesting, driven by exit words
         if self.rb.exit and row == self.rb.exit:
             if not self.ctx:
@@ -524,6 +575,7 @@ class CliDevice:
         if in_rw:
             if row not in tree:
                 tree[row] = odict()
+            self.ctx.append((row, [], tree[row], True))
             return None
         m = match_direct(rules, self.rb.globals, row, self.rb.rev)
         if m is not None:
